@@ -172,9 +172,9 @@ fn gen_string(r: &mut Rng) -> String {
         }
         7 => {
             // long
-            let n = match r.below(4) {
-                0 => 255 + r.below(4) as usize,
-                1 => 65534 + r.below(4) as usize,
+            let n = match r.below(12) {
+                0..=2 => 255 + r.below(4) as usize,
+                3 => 65534 + r.below(4) as usize,
                 _ => 20 + r.below(400) as usize,
             };
             let c = *r.pick(&['x', 'é', '7']);
